@@ -1,7 +1,7 @@
 """C15 — batch evaluation equals element-wise evaluation, in order (engine `calltree`, twin worlds)."""
 import shutil
 
-from sim import core, values, world
+from sim import core, simfs, values, world
 from . import calltree
 
 PROP = "C15"
@@ -16,7 +16,7 @@ RULE = ("twin worlds from the same pre-state: world A evaluates call_batch(kwarg
 ASSUMPTIONS = ["exceptions are compared by class and original message", "stores are compared as sets of (qualified name, argument hash, result type, value, invocation list)"]
 COMPONENTS = {"real": ["call_batch / map_over_range, LocalRunnerBackend.batch_run, runner, storage backends", "fork lifetimes"],
               "stub": ["generated program", "uuid4, clock"]}
-REACH = ["with_transient_failures", "one_shot_iterable_range", "with_warm_elements", "batches", "map_over_range", "raise_first", "with_failing_element", "with_duplicates", "with_prememoized", "empty_batches",
+REACH = ["with_read_fault", "with_transient_failures", "one_shot_iterable_range", "with_warm_elements", "batches", "map_over_range", "raise_first", "with_failing_element", "with_duplicates", "with_prememoized", "empty_batches",
          "partial_prefix", "restart_before_batch"]
 
 
@@ -41,7 +41,12 @@ def gen_case(seed):
         xs = list(range(lo, lo + max(1, min(len(xs), 4 - lo))))
         pre = [x for x in pre if x in xs] or pre
         warm = [x for x in warm if x in xs]
-    return {"seed": seed, "prog": prog, "xs": xs, "via": via, "shape": shape, "raise_first": rng.random() < 0.5, "pre": pre, "warm": warm,
+    rfx = None
+    if pre and xs and rng.random() < 0.25:
+        cand = [x for x in xs if x in pre]
+        if cand:
+            rfx = cand[rng.randrange(len(cand))]     # the stored memento of this element cannot be read once (reported I/O error)
+    return {"seed": seed, "prog": prog, "xs": xs, "via": via, "shape": shape, "read_fault_x": rfx, "raise_first": rng.random() < 0.5, "pre": pre, "warm": warm,
             "cache": rng.random() < 0.6, "restart": rng.random() < 0.5, "backend": rng.choice(["fs", "fs", "memory"])}
 
 
@@ -104,6 +109,11 @@ def run_world(root, case, world_name):
                     except Exception:  # noqa
                         pass
                 side.take()
+                rfx = case.get("read_fault_x")
+                if rfx is not None and kind != "memory":
+                    ah = f.fn_reference().with_args(x=rfx).arg_hash
+                    simfs.arm(world.store_roots(root, False))
+                    simfs.set_read_plan(rules=[{"match": ah + ".memento", "nth": 1}])
                 if world_name == "A":
                     try:
                         if case["via"] == "map_over_range":
@@ -127,8 +137,12 @@ def run_world(root, case, world_name):
                         except Exception as e:  # noqa
                             slots.append(_summ(e))
                     res = {"slots": slots}
+                fired = 0
+                if rfx is not None and kind != "memory":
+                    fired = len(simfs.S.read_fired)
+                    simfs.disarm()
                 runs = [[t[0], t[1]] for t in side.take()]
-                emit({"res": res, "runs": runs, "store": _store_dump(storage)})
+                emit({"res": res, "runs": runs, "store": _store_dump(storage), "read_faults_fired": fired})
         return body
     out = None
     if case["restart"] and case["backend"] != "memory":
@@ -204,6 +218,9 @@ def execute(case):
         transient = set(case["prog"]["nodes"][0].get("transient") or [])
         if transient & set(xs):
             stats["with_transient_failures"] = 1
+        if A.get("read_faults_fired") or B.get("read_faults_fired"):
+            stats["with_read_fault"] = 1
+            transient = transient | {"read-fault"}      # a stored element that cannot be read is evaluated again: single calls are the reference
         if transient:
             # with outcomes that are not to be memoized (also when they propagate from a nested call) the element-wise
             # world is the reference: every element is evaluated exactly as often as single calls evaluate it
